@@ -2,7 +2,7 @@
 import ast
 import z3
 from .engine import (I, R, B, A1, A2, CPLX, cmul, fresh, OutOfFragment, ContractError, MissingSnapshot, UnknownName, AV, Ref, View, IdxList,
-                     Gather, ArrCmp, ListObj, Obj, Unbound, PyConst, SymSeq, State, VC, SpecEval, elem_sort, arr_sort,
+                     Gather, ArrCmp, ListObj, BList, Obj, Unbound, PyConst, SymSeq, State, VC, SpecEval, elem_sort, arr_sort,
                      is_z3, to_z3, as_bool, as_num, compare, scalar_binop, array_binop)
 
 TYPE_ARR = {'bool1': (1, 'bool'), 'int1': (1, 'int'), 'int2': (2, 'int'), 'real1': (1, 'real'), 'cplx1': (1, 'cplx'), 'cplx2': (2, 'cplx'), 'int3': (3, 'int'),
@@ -63,6 +63,7 @@ class LoopSpec(object):
         self.hints_head = list(d.get('hints_head', []))       # lemma calls / asserts after assuming the invariant
         self.hints_end = list(d.get('hints_end', []))         # ... at the end of the body before re-proving it
         self.hints_exit = list(d.get('hints_exit', []))
+        self.hints_init = list(d.get('hints_init', []))       # ... before the loop (list loops: before the clauses are first asserted)
         self.locals = dict(d.get('locals', {}))
 
 
@@ -84,6 +85,7 @@ class Contract(object):
         self.trusted = bool(d.get('trusted', False))    # contract assumed, body not verified (listed in evidence)
         self.bounded_only = bool(d.get('bounded_only', False))
         self.defaults = dict(d.get('defaults', {}))
+        self.decreases = d.get('decreases')             # integer expression over the parameters: strictly smaller (and >= 0) at every recursive call
         self.doc = d.get('doc', '')
 
 
@@ -119,6 +121,10 @@ class FuncVerifier(object):
         self.lib = lib
         self.modules = modules
         self.class_name = class_name
+        # functions defined inside functions: name -> qualified name ('outer.inner', the name its contract is filed under)
+        qual = contract.key.split('::')[1].split('#')[0]
+        self.qual = qual
+        self.local_funcs = {fdef.name: qual} if (class_name is None and '.' in qual) else {}
         self.inline_depth = 0
         self.auto_ord = {}
         self.filekey = filekey
@@ -444,6 +450,11 @@ class FuncVerifier(object):
             return st.alloc(av)
         if t == 'none':
             return None
+        if isinstance(t, tuple) and len(t) == 3 and t[0] == 'list':
+            # a list of at most t[2] values of type t[1] (the callee's contract bounds the length; checked where the callee is verified)
+            ln = fresh(name + '_len', I)
+            st.pc.append(z3.And(0 <= ln, ln <= t[2]))
+            return st.alloc(BList([self.fresh_value(st, '%s_%d' % (name, k), t[1]) for k in range(t[2])], ln))
         if t == 'slice':             # a slice object lo:hi with integer bounds (no step)
             return Tag('slice', fresh(name + '.start', I), fresh(name + '.stop', I))
         if isinstance(t, dict) and 'seq' in t:      # a list of objects of unknown length: {'seq': {'cls': .., 'fields': {f: 'int' | 'int1'}}}
@@ -489,6 +500,10 @@ class FuncVerifier(object):
                 elif isinstance(d, str) and d.endswith('fresh'):
                     ok = isinstance(v, Ref) and v.loc in st.fresh_locs
                     self.oblige(st, 'post.result%d_fresh' % k, z3.BoolVal(ok), node)
+                elif isinstance(d, tuple) and len(d) == 3 and d[0] == 'list':
+                    ok = isinstance(v, Ref) and isinstance(st.heap.get(v.loc), ListObj) and len(st.heap[v.loc].items) <= d[2] \
+                        and all(isinstance(x, Ref) and isinstance(st.heap.get(x.loc), AV) for x in st.heap[v.loc].items)
+                    self.oblige(st, 'post.result%d_list_bound' % k, z3.BoolVal(ok), node, note='returns a list of at most %d arrays' % d[2])
         sp = self.spec(st, extra=extra)
         for k, e in enumerate(c.ensures):
             self.oblige(st, 'post%d' % k, sp.ev_bool(e), node, note=e)
@@ -588,6 +603,13 @@ class FuncVerifier(object):
         if isinstance(n.value, ast.Call) and isinstance(n.value.func, ast.Name) and n.value.func.id == 'print' and 'print' not in st.env:
             return [(st, None)]          # diagnostics: no effect on the state (its arguments are not evaluated)
         self.pev(n.value, st)
+        return [(st, None)]
+
+    def st_FunctionDef(self, n, st):
+        # a function defined inside the function: nothing is executed; calls to it use its own contract ('outer.inner')
+        if n.decorator_list or self.inline_depth:
+            raise OutOfFragment('decorated / inlined nested function', n)
+        self.local_funcs[n.name] = '%s.%s' % (self.qual, n.name)
         return [(st, None)]
 
     def st_Break(self, n, st):
@@ -899,6 +921,12 @@ class FuncVerifier(object):
                 and isinstance(n.target, ast.Name) and isinstance(n.iter.args[2], ast.UnaryOp) and isinstance(n.iter.args[2].op, ast.USub) \
                 and isinstance(n.iter.args[2].operand, ast.Constant) and n.iter.args[2].operand.value == 1:
             return self.st_For_down(n, st, k)
+        if isinstance(n.target, ast.Name):
+            it, rev = n.iter, False
+            if isinstance(it, ast.Call) and isinstance(it.func, ast.Name) and it.func.id == 'reversed' and len(it.args) == 1 and 'reversed' not in st.env:
+                it, rev = it.args[0], True
+            if isinstance(it, ast.Name) and isinstance(st.env.get(it.id), Ref) and isinstance(st.heap.get(st.env[it.id].loc), (ListObj, BList)):
+                return self.st_For_list(n, st, st.heap[st.env[it.id].loc], rev)
         is_range = (isinstance(n.iter, ast.Call) and isinstance(n.iter.func, ast.Name) and n.iter.func.id == 'range'
                     and 1 <= len(n.iter.args) <= 2 and isinstance(n.target, ast.Name))
         enum_src = None
@@ -1037,6 +1065,64 @@ class FuncVerifier(object):
             return hi
         self.oblige(st, site + '.range', z3.BoolVal(True), node, note='possibly empty range: generated over max(lo, hi)')
         return z3.If(hi >= lo, hi, lo)
+
+    def st_For_list(self, n, st, lst, rev):
+        """`for x in l` / `for x in reversed(l)` over a list with a known maximal number of elements (a list literal built on this path,
+        or the bounded list a callee returned): the loop is unrolled completely, iteration k guarded by k < len(l).  No invariant is
+        needed and nothing is cut off: the bound is the length of the list on this path, or the bound the callee's contract proves."""
+        items = list(lst.items)
+        length = lst.length if isinstance(lst, BList) else None
+        var = n.target.id
+        for node in ast.walk(n):
+            if isinstance(node, ast.Break):
+                raise OutOfFragment('break in a loop over a list', n)
+            if isinstance(node, ast.Attribute) and node.attr in ('append', 'pop', 'insert', 'remove', 'extend') \
+                    and isinstance(node.value, ast.Name) and isinstance(n.iter, ast.Name) and node.value.id == n.iter.id:
+                raise OutOfFragment('the list is modified while it is iterated', n)
+        order = range(len(items) - 1, -1, -1) if rev else range(len(items))
+        lk = self.loop_ord[id(n)]
+        ls = self.c.loops.get(lk) if not self.inline_depth else None
+        site = 'loop%d' % lk
+
+        def keep(s_, when):
+            # optional loop specification: its clauses are asserted (and then assumed) before the first and after every iteration
+            if ls is None:
+                return
+            if when == 'end':
+                # the same ghost code runs again for every unrolled iteration: forget what it established for the previous one
+                s_.snaps = {k_: v_ for k_, v_ in s_.snaps.items() if not (isinstance(k_, tuple) and k_[0] == 'done' and k_[1] == site + '.end')}
+                self.apply_hints(s_, ls.hints_end, site + '.end')
+            else:
+                self.apply_hints(s_, ls.hints_init, site + '.init')
+            sp_ = self.spec(s_)
+            for ci, clause in enumerate(ls.invariant):
+                g_ = sp_.ev_bool(clause)
+                self.oblige(s_, '%s.inv%d.%s' % (site, ci, 'init' if when == 'init' else 'step'), g_, n, note=clause)
+                s_.pc.append(g_)
+        st.snaps = dict(st.snaps)
+        st.snaps[site + '.pre'] = (dict(st.env), dict(st.heap))
+        keep(st, 'init')
+        states, done = [st], []
+        for k in order:
+            nxt = []
+            for s in states:
+                if length is not None:
+                    s_skip = s.copy()
+                    s_skip.pc.append(z3.Not(k < length))
+                    nxt.append(s_skip)
+                    s.pc.append(k < length)
+                s.env[var] = items[k]
+                s.snaps = dict(s.snaps)
+                s.snaps[site + '.head'] = (dict(s.env), dict(s.heap))
+                self.apply_hints(s, ls.hints_head if ls is not None else [], site + '.head')
+                for (s1, ctl) in self.exec_block(n.body, s):
+                    if ctl is None or ctl == 'continue':
+                        keep(s1, 'end')
+                        nxt.append(s1)
+                    else:
+                        done.append((s1, ctl))
+            states = nxt
+        return [(s, None) for s in states] + done
 
     def st_For_down(self, n, st, k):
         """`for v in range(start, stop, -1)`: v = start, start-1, ..., stop+1.  The invariant is stated over v at the loop head
@@ -1226,6 +1312,8 @@ class FuncVerifier(object):
             return {'True': z3.BoolVal(True), 'False': z3.BoolVal(False), 'None': None}[n.id]
         if n.id in ('numpy', 'np'):
             return Tag('module', 'numpy')
+        if n.id in self.local_funcs:
+            return Tag('func', self.local_funcs[n.id], self.filekey)
         if n.id in self.module_funcs:
             return Tag('func', n.id, self.filekey)
         if self.modules is not None:
@@ -1804,7 +1892,7 @@ class FuncVerifier(object):
 
     # ------------------------------------------------------------------ calls
     def ex_Call(self, n, st):
-        if isinstance(n.func, ast.Name) and n.func.id not in st.env and n.func.id not in self.module_funcs \
+        if isinstance(n.func, ast.Name) and n.func.id not in st.env and n.func.id not in self.module_funcs and n.func.id not in self.local_funcs \
                 and (self.modules is None or self.modules.resolve(self.cur_file(), n.func.id) is None):
             f = Tag('builtin', n.func.id)
         else:
@@ -1838,7 +1926,25 @@ class FuncVerifier(object):
             if callee is not None:
                 if kwargs:
                     raise OutOfFragment('keyword arguments in a call to a contracted function', n)
-                return self.call_contract(fname, args, n, st, ffile)
+                # a rectangular region a[lo:hi, lo2:hi2] (slices only: basic indexing, numpy passes a VIEW; a mask or index array in the
+                # subscript makes a copy and is not affected) of a local array passed to a callee that modifies that parameter in place:
+                # the callee works on the region's content, its result is written back into the base array
+                regions = []
+                for i_, a_ in enumerate(n.args):
+                    if isinstance(a_, ast.Subscript) and isinstance(a_.value, ast.Name) and isinstance(a_.slice, ast.Tuple) \
+                            and all(isinstance(e_, ast.Slice) for e_ in a_.slice.elts) and i_ < len(callee.params) \
+                            and callee.params[i_][0] in callee.modifies and isinstance(args[i_], Ref):
+                        base = st.env.get(a_.value.id)
+                        if not (isinstance(base, Ref) and isinstance(st.heap.get(base.loc), AV)):
+                            raise OutOfFragment('region argument of something that is not a local array', n)
+                        if any(isinstance(x, (Ref, View)) and x.loc == base.loc for x in args):
+                            raise OutOfFragment('an array and a region of it passed to the same call', n)
+                        regions.append((i_, a_, base))
+                res = self.call_contract(fname, args, n, st, ffile)
+                for i_, a_, base in regions:
+                    self.write_region(base, self.deref(base, st), a_.slice, args[i_], st, n)
+                    st.env['region_%s_%d' % (fname.split('.')[-1], i_)] = args[i_]      # ghost name for hints: the region after the call
+                return res
             r = self.modules.resolve(ffile, fname) if self.modules else None
             if r is None:
                 raise OutOfFragment('call to %s which has no contract' % fname, n)
@@ -2516,6 +2622,13 @@ class FuncVerifier(object):
         spre = SpecEval(self.lib.theory, env, heap_pre, env, heap_pre, self.lib.preds)
         for k, r in enumerate(callee.requires):
             self.oblige(st, '%s.pre%d' % (site, k), spre.ev_bool(r), n, note=r)
+        if callee.key == self.c.key:
+            # a recursive call: partial correctness by the function's own contract, termination by its measure
+            if callee.decreases is None:
+                raise ContractError('recursive call in %s but the contract has no `decreases`' % self.c.key)
+            d_here = SpecEval(self.lib.theory, self.entry.env, self.entry.heap, self.entry.env, self.entry.heap, self.lib.preds).ev(callee.decreases)
+            d_call = spre.ev(callee.decreases)
+            self.oblige(st, '%s.decreases' % site, z3.And(0 <= as_num(d_call), as_num(d_call) < as_num(d_here)), n, note='decreases ' + callee.decreases)
         for p in callee.modifies:
             if p not in locs:
                 raise OutOfFragment('%s modifies %s: the argument must be a whole array' % (fname, p), n)
